@@ -22,11 +22,11 @@ MANIFEST = {
     'technique': 'solver-driven bounded exploration of the real Python code (z3 decides every input choice; coverage certificate), reference-semantics oracle',
 }
 
-BOUNDS = {'quick': {'stream': 5, 'tail': 1, 'task': 4}, 'thorough': {'stream': 7, 'tail': 1, 'task': 6}}
+BOUNDS = {'quick': {'stream': 4, 'tail': 1, 'task': 4}, 'thorough': {'stream': 6, 'tail': 1, 'task': 6}}
 INFO = {
     'engine': 'symx + z3 (inputs concretised by decisions) + real pandas/csv',
     'explanation': 'see level text',
-    'bounds': {t: {'stream': f'<= {b["stream"]} data lines, per line good/short/long/blank, subsampling 1..3, minibatch 1..3', 'tail': 'N in 1020..1030 good lines, minibatch in {1025, 1026, 2000}',
+    'bounds': {t: {'stream': f'<= {b["stream"]} data lines, per line good/short/long/blank/quoted-delimiter, subsampling 1..3, minibatch 1..3', 'tail': 'N in 1020..1030 good lines, minibatch in {1025, 1026, 2000}',
                    'task': f'<= {b["task"]} data lines (good/short), subsampling 1..2, minibatch 2..3, real scorer MI-numba-randomized'} for t, b in BOUNDS.items()},
     'outside': ['gzip input', 'progress bar', 'the real process pool (serial stub with the documented order-preserving contract)', 'files longer than the bound'],
     'assumptions': ['open() replaced by a list-of-lines stream in the loop condition', 'recorder scores are distinct known constants per (batch, pair)'],
@@ -44,6 +44,8 @@ def line(i, kind):
         return f'a{i % 3},b{i % 2}\n'
     if kind == 3:
         return ' \n' if i % 2 else '\n'      # blank / whitespace-only line: occupies a file position, has the wrong field count
+    if kind == 4:
+        return f'"a{i % 3},z",b{i % 2},{i % 2}\n'      # well-formed: the delimiter sits inside a quoted field
     return f'a{i % 3},b{i % 2},{i % 2},x\n'
 
 
@@ -133,9 +135,9 @@ def check_loop(rec, kinds, sub, mb, tail_min=1024):
     """reference semantics from the statement"""
     n = len(kinds)
     sel = [i for i in range(n) if (i + 1) % sub == 0]
-    good = [i for i in sel if kinds[i] == 0]
-    bad = [i for i in sel if kinds[i] != 0]
-    rows = [line(i, 0).strip().split(',') for i in good]
+    good = [i for i in sel if kinds[i] in (0, 4)]
+    bad = [i for i in sel if kinds[i] not in (0, 4)]
+    rows = [([f'a{i % 3},z', f'b{i % 2}', str(i % 2)] if kinds[i] == 4 else line(i, 0).strip().split(',')) for i in good]
     nfull = len(rows) // mb
     exp_batches = [rows[j * mb:(j + 1) * mb] for j in range(nfull)]
     rem = rows[nfull * mb:]
@@ -274,7 +276,7 @@ def jobs(tier):
     b = BOUNDS[tier]
     out = []
     for n in range(0, b['stream'] + 1):
-        pins_list = [{}] if n < 4 else list(hutil.product_pins([('k0', range(4)), ('k1', range(4))]))
+        pins_list = [{}] if n < 4 else list(hutil.product_pins([('k0', range(5)), ('k1', range(5))]))
         for pins in pins_list:
             out.append({'cond': 'stream', 'n': n, 'pins': pins, 'weight': 3 ** n, 'label': f'n={n},{pins}'})
     for mb in (1025, 1026, 2000):
@@ -301,7 +303,7 @@ def run_job(job):
             ctx.assume(st['n'] >= 1020, st['n'] <= 1030)
             return
         n = job['n']
-        nk = 4 if cond == 'stream' else 2
+        nk = 5 if cond == 'stream' else 2
         st['k'] = [z3.Int(f'k{i}') for i in range(n)]
         for v in st['k']:
             ctx.assume(v >= 0, v < nk)
@@ -321,7 +323,7 @@ def run_job(job):
             sub, mb = 1, job['mb']
         else:
             n = job['n']
-            kinds = [int(SInt(v, 0, 3)) for v in st['k']]
+            kinds = [int(SInt(v, 0, 4)) for v in st['k']]
             sub = int(SInt(st['sub'], 1, 3))
             mb = int(SInt(st['mb'], 1, 3))
         lines = [line(i, k) for i, k in enumerate(kinds)]
@@ -359,5 +361,5 @@ def replay(w):
         return {'reproduced': True, 'signature': f'C08:{cond}:exception:{type(e).__name__}:{tb.name}', 'what': f'{cond}: lines {w["kinds"]}, subsampling {sub}, minibatch {mb}: {type(e).__name__}: {e} in {tb.name} ({os.path.basename(tb.filename)}:{tb.lineno})'}
     if probs:
         key = probs[0].split()[0]
-        return {'reproduced': True, 'signature': f'C08:{cond}:{key}', 'what': f'{cond}: line kinds {w["kinds"]} (0 good, 1 short, 2 long, 3 blank), subsampling {sub}, minibatch {mb}: ' + '; '.join(probs)[:600]}
+        return {'reproduced': True, 'signature': f'C08:{cond}:{key}', 'what': f'{cond}: line kinds {w["kinds"]} (0 good, 1 short, 2 long, 3 blank, 4 quoted delimiter), subsampling {sub}, minibatch {mb}: ' + '; '.join(probs)[:600]}
     return {'reproduced': False, 'what': 'reference semantics observed'}
